@@ -712,9 +712,7 @@ class Fingerprint(object):
             self.level == other.level
             and self.bits == other.bits
             and self.__class__ == other.__class__
-            and np.all(
-                np.in1d(self.indices, other.indices, assume_unique=True)
-            )
+            and np.array_equal(self.indices, other.indices)
         )
 
     def __ne__(self, other):
